@@ -34,7 +34,7 @@ _VAR = None
 
 
 def variants():
-    """Which recorded defects the CURRENT code exhibits, measured on their own repro inputs."""
+    """Whether the still-open finding ft-halfcomplex-unshifted-axis is already rejected at construction."""
     global _VAR
     if _VAR is not None:
         return _VAR
@@ -42,26 +42,6 @@ def variants():
     v = {}
     with warnings.catch_warnings():
         warnings.simplefilter('ignore')
-        sp = odl.uniform_discr(0, 1, 4)
-        y = np.fft.fft([1.0, 2, 3, 4])
-        try:
-            odl.trafos.DiscreteFourierTransformInverse(sp, halfcomplex=False, impl='pyfftw')(y)
-            v['dft_real_pyfftw'] = False
-        except ValueError:
-            v['dft_real_pyfftw'] = True
-        sp5 = odl.uniform_discr(0, 1, 5)
-        try:
-            odl.trafos.DiscreteFourierTransformInverse(sp5, halfcomplex=True, impl='numpy')(
-                np.fft.rfft([1.0, 2, 3, 4, 5]))
-            v['dft_hc_odd_numpy'] = False
-        except ValueError:
-            v['dft_hc_odd_numpy'] = True
-        try:
-            ft = odl.trafos.FourierTransform(sp, halfcomplex=False, shift=False, impl='pyfftw')
-            ft.inverse(ft(sp.one()))
-            v['ft_real_unshifted_pyfftw'] = False
-        except TypeError:
-            v['ft_real_unshifted_pyfftw'] = True
         sp2 = odl.uniform_discr([0, 0], [1, 1], (4, 5))
         try:
             odl.trafos.FourierTransform(sp2, halfcomplex=True, shift=(False, True), impl='numpy')
@@ -73,11 +53,7 @@ def variants():
 
 
 def var_lit():
-    v = variants()
-    return ('{| v_dft_real_pyfftw := %s; v_dft_hc_odd_numpy := %s; v_ft_real_unshifted_pyfftw := %s; '
-            'v_ft_hc_needs_all_shifts := %s |}'
-            % (C.b(v['dft_real_pyfftw']), C.b(v['dft_hc_odd_numpy']), C.b(v['ft_real_unshifted_pyfftw']),
-               C.b(v['ft_hc_needs_all_shifts'])))
+    return '{| v_ft_hc_needs_all_shifts := %s |}' % C.b(variants()['ft_hc_needs_all_shifts'])
 
 
 # ----------------------------------------------------------------- literals
@@ -247,9 +223,8 @@ def dft_cases(rng, tier):
                 else:
                     op = fwd
                     xin = _rand_arr(rng, shape, dt.startswith('complex'))
-                # the first pyfftw call on a fresh problem may return garbage (finding
-                # dft-pyfftw-real-firstcall, probed separately): record the second call
-                op(op.domain.element(np.array(xin, copy=True)))
+                # the very first call (the first-call defect of the pyfftw real transform, cc7c4de, would
+                # show here as well as in the probes)
                 out = np.asarray(op(op.domain.element(np.array(xin, copy=True))))
             outt = '(IOk %s)' % cqs(out)
         except Exception as e:
